@@ -20,7 +20,8 @@ def impl_batch(case):
         try:
             res = {}
             for rule in it["rules"]:
-                res[rule] = E.run_rule(rule, it["P"], it["vals"], it["k"], cache=cache, integer=(it["kind"] == "integer"))
+                res[rule] = E.run_rule(rule, it["P"], it["vals"], it["k"], cache=cache, integer=(it["kind"] == "integer"),
+                                       el_zero=it.get("el_zero", True), share=it.get("share", False), history=it.get("history"))
             if "dtsf" in it:
                 from harness import c17
                 d = it["dtsf"]
@@ -221,7 +222,9 @@ def gen_items(R, count):
         P = V.rand_profile(R.rng, n, m)
         vals = E.gen_near_threshold(R.rng, P, m, k) if kind == "near_threshold" else E.gen_vals(R.rng, P, m, kind)
         rules = ["karv"] + (["tsf", "m2q"] if square else [])
-        it = {"P": P, "vals": vals, "k": k, "rules": rules, "kind": kind}
+        it = {"P": P, "vals": vals, "k": k, "rules": rules, "kind": kind, "el_zero": R.rng.random() < 0.6, "share": R.rng.random() < 0.5}
+        if R.rng.random() < 0.3:
+            it["history"] = [[R.rng.randrange(n), R.rng.randrange(m)] for _ in range(R.rng.randint(1, 4))]
         if square and m <= 8 and R.rng.random() < 0.5:
             from harness import smlib as S_
             P2 = V.rand_profile(R.rng, m, m)
